@@ -2,6 +2,8 @@ package file
 
 import (
 	"bytes"
+	"encoding/binary"
+	"errors"
 	"fmt"
 
 	"github.com/jfrog/go-rpm"
@@ -35,6 +37,71 @@ func rpmBytes(idx rpm.IndexEntries, tag int) []byte {
 		return b
 	}
 	return nil
+}
+
+var errRPMIndex = errors.New("RPM header index entry exceeds the header's data")
+
+// rpmCheckIndex walks the signature header and the main header of an RPM file and
+// verifies that every index entry describes data that lies inside its header's store.
+// go-rpm does not: it indexes past the store when the strings of a string array are not
+// terminated inside it.
+// Anything else that is wrong with the file (bad magic, truncation) is left for go-rpm
+// to report.
+func rpmCheckIndex(data []byte) error {
+	const leadSize, introSize, entrySize = 96, 16, 16
+	pos := leadSize
+	for h := 0; h < 2; h++ {
+		if pos > len(data) || len(data)-pos < introSize {
+			return nil
+		}
+		n := uint64(binary.BigEndian.Uint32(data[pos+8:]))
+		size := uint64(binary.BigEndian.Uint32(data[pos+12:]))
+		pos += introSize
+		if n > uint64(len(data)-pos)/entrySize {
+			return errRPMIndex
+		}
+		index := data[pos : pos+int(n)*entrySize]
+		pos += int(n) * entrySize
+		if size > uint64(len(data)-pos) {
+			return errRPMIndex
+		}
+		store := data[pos : pos+int(size)]
+		pos += int(size)
+		for i := 0; i < int(n); i++ {
+			e := index[i*entrySize:]
+			typ := int(binary.BigEndian.Uint32(e[4:]))
+			offset := uint64(binary.BigEndian.Uint32(e[8:]))
+			count := uint64(binary.BigEndian.Uint32(e[12:]))
+			if offset > size {
+				return errRPMIndex
+			}
+			avail := size - offset
+			ok := true
+			switch typ {
+			case rpm.IndexDataTypeString, rpm.IndexDataTypeStringArray, rpm.IndexDataTypeI8NString:
+				ok = count <= avail && rpmStringsFit(store[offset:], int(count))
+			}
+			if !ok {
+				return errRPMIndex
+			}
+		}
+		if size%8 != 0 {
+			pos += 8 - int(size%8)
+		}
+	}
+	return nil
+}
+
+// rpmStringsFit reports whether b starts with count NUL-terminated strings.
+func rpmStringsFit(b []byte, count int) bool {
+	for ; count > 0; count-- {
+		k := bytes.IndexByte(b, 0)
+		if k < 0 {
+			return false
+		}
+		b = b[k+1:]
+	}
+	return true
 }
 
 func rpmSignatureAttributes(sig []byte) []Attribute {
